@@ -20,7 +20,12 @@ Section BatchedProofs.
   Notation decideX := (decide residual classify).
   Notation hasX := (has residual classify).
   Notation batchedX := (batched U U_eqb D empty_entity residual classify lits reinterp rs0).
+  Notation batched_fullX := (batched_full U U_eqb D empty_entity residual classify lits reinterp rs0).
   Notation initX := (init U D residual reinterp rs0).
+  Notation add_allX := (add_all U U_eqb D empty_entity).
+  Notation to_loadX := (to_load U U_eqb D residual lits).
+  Notation loadedX := (loaded U U_eqb D).
+  Notation no_partialX := (no_partial residual classify).
 
   Definition mapf (f : residual -> residual) (rs : list (rpol residual)) : list (rpol residual) :=
     map (fun er => (fst er, f (snd er))) rs.
@@ -82,31 +87,37 @@ Section BatchedProofs.
   Qed.
 
   (* no Partial residual left: Response::new "guaranteed to arrive at a Decision" *)
-  Lemma has_partial_none : forall p rs, no_partial residual classify rs = true -> hasX p RPartial rs = false.
+  Lemma has_partial_none : forall p rs, no_partialX rs = true -> hasX p RPartial rs = false.
   Proof.
     intros p rs. unfold no_partial, has, is_partial. induction rs as [|[e r] tl IH]; simpl; intro H; [reflexivity|].
     apply andb_true_iff in H. destruct H as [H1 H2]. rewrite (IH H2).
     apply negb_true_iff in H1. rewrite H1. rewrite andb_false_r. reflexivity.
   Qed.
 
-  Lemma decide_no_partial : forall rs, no_partial residual classify rs = true -> exists d, decideX rs = Some d.
+  Lemma decide_no_partial : forall rs, no_partialX rs = true -> exists d, decideX rs = Some d.
   Proof.
     intros rs H. unfold decide. rewrite (has_partial_none eff_is_permit rs H), (has_partial_none eff_is_forbid rs H).
     destruct (hasX eff_is_forbid RTrue rs); destruct (hasX eff_is_permit RTrue rs); eauto.
   Qed.
+
+  (* ---------------------------------------------------------------- the fixed duplicate handling *)
+  (* an entity the loader returns again (already in the partial store) is ignored *)
+  Lemma add_all_ignores_loaded : forall st u e ans,
+    loadedX st u = true -> add_allX st ((u, e) :: ans) = add_allX st ans.
+  Proof. intros st u e ans H. simpl. rewrite H. reflexivity. Qed.
 
   Section Loop.
     Variable l : loader U D.
     Hypothesis reinterp_stable : forall st, stable (reinterp st).
 
     Lemma loop_stable : forall n st rs calls st1 rs1 c1,
-      loopX l n st rs calls = Some (st1, rs1, c1) -> exists g, stable g /\ rs1 = mapf g rs.
+      loopX l n st rs calls = (st1, rs1, c1) -> exists g, stable g /\ rs1 = mapf g rs.
     Proof.
       induction n as [|n IH]; intros st rs calls st1 rs1 c1 H; simpl in H.
       - inversion H; subst. exists (fun r => r). split; [intros r _; reflexivity|]. symmetry; apply mapf_id.
-      - destruct (add_all U U_eqb D empty_entity st (l (to_load U U_eqb D residual lits st rs))) as [st'|] eqn:Ha; [|discriminate].
+      - set (st' := add_allX st (l (to_loadX st rs))) in *.
         fold (mapf (reinterp st') rs) in H.
-        destruct (no_partial residual classify (mapf (reinterp st') rs)) eqn:Hn.
+        destruct (no_partialX (mapf (reinterp st') rs)) eqn:Hn.
         + inversion H; subst. eexists. split; [|reflexivity]. apply reinterp_stable.
         + apply IH in H. destruct H as [g [Hg E]]. exists (fun r => g (reinterp st' r)). split.
           * intros r Hr. rewrite (reinterp_stable st' r Hr). apply Hg. exact Hr.
@@ -114,84 +125,244 @@ Section BatchedProofs.
     Qed.
 
     Lemma loop_more : forall n st rs calls st1 rs1 c1 k,
-      loopX l n st rs calls = Some (st1, rs1, c1) ->
-      loopX l (n + k) st rs calls = None \/
-      exists st2 rs2 c2 g, loopX l (n + k) st rs calls = Some (st2, rs2, c2) /\ stable g /\ rs2 = mapf g rs1.
+      loopX l n st rs calls = (st1, rs1, c1) ->
+      exists st2 rs2 c2 g, loopX l (n + k) st rs calls = (st2, rs2, c2) /\ stable g /\ rs2 = mapf g rs1.
     Proof.
       induction n as [|n IH]; intros st rs calls st1 rs1 c1 k H.
       - simpl in H. inversion H; subst. simpl.
-        destruct (loopX l k st1 rs1 c1) as [[[st2 rs2] c2]|] eqn:E; [|left; reflexivity].
-        right. destruct (loop_stable _ _ _ _ _ _ _ E) as [g [Hg Eg]]. exists st2, rs2, c2, g. auto.
+        destruct (loopX l k st1 rs1 c1) as [[st2 rs2] c2] eqn:E.
+        destruct (loop_stable _ _ _ _ _ _ _ E) as [g [Hg Eg]]. exists st2, rs2, c2, g. auto.
       - simpl in H. simpl.
-        destruct (add_all U U_eqb D empty_entity st (l (to_load U U_eqb D residual lits st rs))) as [st'|] eqn:Ha; [|discriminate].
+        set (st' := add_allX st (l (to_loadX st rs))) in *.
         fold (mapf (reinterp st') rs) in H. fold (mapf (reinterp st') rs).
-        destruct (no_partial residual classify (mapf (reinterp st') rs)) eqn:Hn.
-        + right. do 3 eexists. exists (fun r => r). split; [reflexivity|]. split; [intros r _; reflexivity|].
+        destruct (no_partialX (mapf (reinterp st') rs)) eqn:Hn.
+        + do 3 eexists. exists (fun r => r). split; [reflexivity|]. split; [intros r _; reflexivity|].
           inversion H; subst. symmetry; apply mapf_id.
         + eapply IH. exact H.
     Qed.
 
-    Theorem monotone_weak : forall n k d,
-      batchedX l n = BOk d -> batchedX l (n + k) = BOk d \/ batchedX l (n + k) = BErrDuplicate.
-    Proof.
-      intros n k d. unfold batched, batched_full.
-      destruct (loopX l n [] initX []) as [[[st1 rs1] c1]|] eqn:E; simpl; [|discriminate].
-      destruct (decideX rs1) as [d1|] eqn:Ed; simpl; [|discriminate]. intro H. inversion H; subst.
-      destruct (loop_more _ _ _ _ _ _ _ k E) as [N|[st2 [rs2 [c2 [g [E2 [Hg Eg]]]]]]].
-      - right. rewrite N. reflexivity.
-      - left. rewrite E2. simpl. subst rs2. rewrite (decide_stable g rs1 d Hg Ed). reflexivity.
-    Qed.
-
-    (* the loader never answers with an id that is already in the partial store (true of a loader
-       that answers exactly the requested ids, which were filtered and deduplicated) *)
-    Hypothesis loader_no_collision : forall st rs, add_all U U_eqb D empty_entity st (l (to_load U U_eqb D residual lits st rs)) <> None.
-
-    Lemma loop_some : forall n st rs calls, loopX l n st rs calls <> None.
-    Proof.
-      induction n as [|n IH]; intros st rs calls; simpl; [discriminate|].
-      destruct (add_all U U_eqb D empty_entity st (l (to_load U U_eqb D residual lits st rs))) as [st'|] eqn:Ha.
-      - destruct (no_partial residual classify (map (fun er => (fst er, reinterp st' (snd er))) rs)); [discriminate|apply IH].
-      - exfalso. exact (loader_no_collision st rs Ha).
-    Qed.
-
-    Theorem insufficient_only : forall n, batchedX l n = BInsufficient \/ exists d, batchedX l n = BOk d.
-    Proof.
-      intro n. unfold batched, batched_full.
-      destruct (loopX l n [] initX []) as [[[st1 rs1] c1]|] eqn:E.
-      - simpl. destruct (decideX rs1); [right; eauto|left; reflexivity].
-      - exfalso. exact (loop_some _ _ _ _ E).
-    Qed.
-
     Theorem monotone : forall n k d, batchedX l n = BOk d -> batchedX l (n + k) = BOk d.
     Proof.
-      intros n k d H. destruct (monotone_weak n k d H) as [A|A]; [exact A|].
-      destruct (insufficient_only (n + k)) as [B|[d' B]]; rewrite B in A; discriminate.
+      intros n k d. unfold batched, batched_full.
+      destruct (loopX l n [] initX []) as [[st1 rs1] c1] eqn:E; simpl.
+      destruct (decideX rs1) as [d1|] eqn:Ed; simpl; [|discriminate]. intro H. inversion H; subst.
+      destruct (loop_more _ _ _ _ _ _ _ k E) as [st2 [rs2 [c2 [g [E2 [Hg Eg]]]]]].
+      rewrite E2. simpl. subst rs2. rewrite (decide_stable g rs1 d Hg Ed). reflexivity.
     Qed.
 
     (* an Insufficient outcome means the budget was used up with a Partial residual left *)
     Lemma loop_calls : forall n st rs calls st1 rs1 c1,
-      loopX l n st rs calls = Some (st1, rs1, c1) ->
-      no_partial residual classify rs1 = true \/ length c1 = (length calls + n)%nat.
+      loopX l n st rs calls = (st1, rs1, c1) ->
+      no_partialX rs1 = true \/ length c1 = (length calls + n)%nat.
     Proof.
       induction n as [|n IH]; intros st rs calls st1 rs1 c1 H; simpl in H.
       - inversion H; subst. right. lia.
-      - destruct (add_all U U_eqb D empty_entity st (l (to_load U U_eqb D residual lits st rs))) as [st'|]; [|discriminate].
-        destruct (no_partial residual classify (map (fun er => (fst er, reinterp st' (snd er))) rs)) eqn:Hn.
+      - set (st' := add_allX st (l (to_loadX st rs))) in *.
+        destruct (no_partialX (map (fun er => (fst er, reinterp st' (snd er))) rs)) eqn:Hn.
         + inversion H; subst. left. exact Hn.
         + apply IH in H. destruct H as [H|H]; [left; exact H|right]. rewrite H. rewrite app_length. simpl. lia.
     Qed.
 
     Theorem insufficient_uses_budget : forall n,
-      batchedX l n = BInsufficient ->
-      length (snd (batched_full U U_eqb D empty_entity residual classify lits reinterp rs0 l n)) = n.
+      batchedX l n = BInsufficient -> length (snd (batched_fullX l n)) = n.
     Proof.
       intro n. unfold batched, batched_full.
-      destruct (loopX l n [] initX []) as [[[st1 rs1] c1]|] eqn:E; simpl; [|discriminate].
+      destruct (loopX l n [] initX []) as [[st1 rs1] c1] eqn:E; simpl.
       destruct (decideX rs1) eqn:Ed; simpl; [discriminate|]. intros _.
       destruct (loop_calls _ _ _ _ _ _ _ E) as [H|H]; [|simpl in H; exact H].
       destruct (decide_no_partial rs1 H) as [d Hd]. rewrite Hd in Ed. discriminate.
     Qed.
+
+    Lemma loop_calls_le : forall n st rs calls st1 rs1 c1,
+      loopX l n st rs calls = (st1, rs1, c1) -> (length c1 <= length calls + n)%nat.
+    Proof.
+      induction n as [|n IH]; intros st rs calls st1 rs1 c1 H; simpl in H.
+      - inversion H; subst. lia.
+      - set (st' := add_allX st (l (to_loadX st rs))) in *.
+        destruct (no_partialX (map (fun er => (fst er, reinterp st' (snd er))) rs)) eqn:Hn.
+        + inversion H; subst. rewrite app_length. simpl. lia.
+        + apply IH in H. rewrite app_length in H. simpl in H. lia.
+    Qed.
+
+    (* at most `budget` loader calls *)
+    Theorem calls_le_budget : forall n, (length (snd (batched_fullX l n)) <= n)%nat.
+    Proof.
+      intro n. unfold batched_full.
+      destruct (loopX l n [] initX []) as [[st1 rs1] c1] eqn:E; simpl.
+      apply loop_calls_le in E. simpl in E. exact E.
+    Qed.
   End Loop.
+
+  (* ---------------------------------------------------------------- progress *)
+  Section Progress.
+    Variable l : loader U D.
+    Variable Univ : list U.                       (* the uids occurring in store + request + policies *)
+    Variable good : pstore U D -> Prop.           (* partial stores the loader can produce from the store *)
+    Hypothesis U_eqb_spec : forall a b, U_eqb a b = true <-> a = b.
+    Hypothesis reinterp_stable : forall st, stable (reinterp st).
+    Hypothesis good_nil : good [].
+    Hypothesis good_add : forall st ids, good st -> good (add_allX st (l ids)).
+    (* interp hypotheses: a residual still Partial after interpretation over st mentions a literal
+       uid that st does not have; interpretation over a good store only mentions uids of the universe *)
+    Hypothesis partial_needs_unloaded : forall st r,
+      classify (reinterp st r) = RPartial -> exists u, In u (lits (reinterp st r)) /\ loadedX st u = false.
+    Hypothesis lits_in_universe : forall st r,
+      good st -> incl (lits r) Univ -> incl (lits (reinterp st r)) Univ.
+    Hypothesis rs0_in_universe : forall er, In er rs0 -> incl (lits (snd er)) Univ.
+    (* loader hypotheses: every requested id is answered; extra answers are uids of the universe *)
+    Hypothesis loader_answers : forall ids u, In u ids -> In u (map fst (l ids)).
+    Hypothesis loader_in_universe : forall ids u, In u (map fst (l ids)) -> In u ids \/ In u Univ.
+
+    Lemma mem_In : forall u xs, mem U U_eqb u xs = true <-> In u xs.
+    Proof.
+      intros u xs. unfold mem. rewrite existsb_exists. split.
+      - intros [x [Hx He]]. apply U_eqb_spec in He. subst. exact Hx.
+      - intro H. exists u. split; [exact H|]. apply U_eqb_spec. reflexivity.
+    Qed.
+
+    Lemma dedup_In : forall u xs, In u (dedup U U_eqb xs) <-> In u xs.
+    Proof.
+      intros u xs. induction xs as [|x tl IH]; simpl; [tauto|].
+      destruct (mem U U_eqb x tl) eqn:M.
+      - rewrite IH. split; [tauto|]. intros [E|H]; [subst; apply mem_In; exact M|exact H].
+      - simpl. rewrite IH. tauto.
+    Qed.
+
+    Lemma add_all_props : forall ans st,
+      incl (map fst st) (map fst (add_allX st ans)) /\
+      (forall u, In u (map fst ans) -> In u (map fst (add_allX st ans))) /\
+      (forall u, In u (map fst (add_allX st ans)) -> In u (map fst st) \/ In u (map fst ans)) /\
+      (NoDup (map fst st) -> NoDup (map fst (add_allX st ans))).
+    Proof.
+      induction ans as [|[u e] tl IH]; intro st; simpl.
+      - repeat split; auto. apply incl_refl. intros u [].
+      - destruct (loadedX st u) eqn:L.
+        + destruct (IH st) as [A [B [C Dd]]]. repeat split; auto.
+          * intros v [E|H]; [subst; apply A; apply mem_In; exact L|apply B; exact H].
+          * intros v H. destruct (C v H); auto.
+        + set (st2 := (u, match e with Some d => d | None => empty_entity u end) :: st).
+          destruct (IH st2) as [A [B [C Dd]]]. repeat split.
+          * intros v H. apply A. simpl. right. exact H.
+          * intros v [E|H]; [subst; apply A; simpl; left; reflexivity|apply B; exact H].
+          * intros v H. destruct (C v H) as [H1|H1]; [|auto]. simpl in H1. destruct H1; auto.
+          * intro N. apply Dd. simpl. constructor; [|exact N].
+            intro I. apply mem_In in I. unfold loaded in L. rewrite I in L. discriminate.
+    Qed.
+
+    Definition inv (st : pstore U D) (rs : list (rpol residual)) : Prop :=
+      NoDup (map fst st) /\ incl (map fst st) Univ /\ good st /\
+      exists prev, rs = mapf (reinterp st) prev /\ forall er, In er prev -> incl (lits (snd er)) Univ.
+
+    Lemma inv_lits : forall st rs, inv st rs -> forall er, In er rs -> incl (lits (snd er)) Univ.
+    Proof.
+      intros st rs [_ [_ [G [prev [E P]]]]] er H. subst rs. unfold mapf in H. apply in_map_iff in H.
+      destruct H as [er0 [E0 H0]]. subst er. simpl. apply lits_in_universe; [exact G|apply P; exact H0].
+    Qed.
+
+    Lemma to_load_In : forall st rs u,
+      In u (to_loadX st rs) <-> (exists er, In er rs /\ In u (lits (snd er))) /\ loadedX st u = false.
+    Proof.
+      intros st rs u. unfold to_load. rewrite dedup_In, filter_In, in_flat_map, negb_true_iff. tauto.
+    Qed.
+
+    Lemma step_inv : forall st rs,
+      inv st rs -> inv (add_allX st (l (to_loadX st rs))) (mapf (reinterp (add_allX st (l (to_loadX st rs)))) rs).
+    Proof.
+      intros st rs I. pose proof (inv_lits st rs I) as HL. destruct I as [N [S [G _]]].
+      destruct (add_all_props (l (to_loadX st rs)) st) as [A [B [C Dd]]].
+      split; [apply Dd; exact N|]. split.
+      - intros u H. destruct (C u H) as [H1|H1]; [apply S; exact H1|].
+        destruct (loader_in_universe _ _ H1) as [H2|H2]; [|exact H2].
+        apply to_load_In in H2. destruct H2 as [[er [Her Hu]] _]. exact (HL er Her u Hu).
+      - split; [apply good_add; exact G|]. exists rs. split; [reflexivity|exact HL].
+    Qed.
+
+    Lemma partial_in : forall rs, no_partialX rs = false -> exists er, In er rs /\ classify (snd er) = RPartial.
+    Proof.
+      unfold no_partial, is_partial. induction rs as [|er tl IH]; simpl; intro H; [discriminate|].
+      apply andb_false_iff in H. destruct H as [H|H].
+      - exists er. split; [left; reflexivity|]. apply negb_false_iff in H. apply rclass_eqb_eq. exact H.
+      - destruct (IH H) as [x [Hx Hc]]. exists x. split; [right; exact Hx|exact Hc].
+    Qed.
+
+    (* each non-final iteration loads at least one new uid *)
+    Lemma step_grows : forall st rs,
+      inv st rs ->
+      no_partialX (mapf (reinterp (add_allX st (l (to_loadX st rs)))) rs) = false ->
+      (S (length st) <= length (add_allX st (l (to_loadX st rs))))%nat.
+    Proof.
+      intros st rs I Hn. set (st' := add_allX st (l (to_loadX st rs))) in *.
+      destruct (partial_in _ Hn) as [er' [Her' Hc']]. unfold mapf in Her'. apply in_map_iff in Her'.
+      destruct Her' as [er [E Her]]. subst er'. simpl in Hc'.
+      assert (Hc : classify (snd er) = RPartial).
+      { destruct (rclass_eqb (classify (snd er)) RPartial) eqn:Q; [apply rclass_eqb_eq; exact Q|].
+        exfalso. rewrite (reinterp_stable st' (snd er)) in Hc'.
+        - rewrite Hc' in Q. discriminate.
+        - intro X. rewrite X in Q. discriminate. }
+      destruct I as [N [S [G [prev [E P]]]]]. subst rs. unfold mapf in Her. apply in_map_iff in Her.
+      destruct Her as [er0 [E0 H0]]. subst er. simpl in Hc.
+      destruct (partial_needs_unloaded st (snd er0) Hc) as [u [Hu Lu]].
+      assert (T : In u (to_loadX st (mapf (reinterp st) prev))).
+      { apply to_load_In. split; [|exact Lu]. exists (fst er0, reinterp st (snd er0)). split; [|exact Hu].
+        unfold mapf. apply in_map_iff. exists er0. auto. }
+      destruct (add_all_props (l (to_loadX st (mapf (reinterp st) prev))) st) as [A [B [C Dd]]].
+      fold st' in A, B, C, Dd.
+      assert (Hin : In u (map fst st')) by (apply B; apply loader_answers; exact T).
+      assert (Hnot : ~ In u (map fst st)).
+      { intro X. apply mem_In in X. unfold loaded in Lu. rewrite X in Lu. discriminate. }
+      assert (Hle : (length (u :: map fst st) <= length (map fst st'))%nat).
+      { apply NoDup_incl_length; [constructor; assumption|].
+        intros v [Ev|Hv]; [subst; exact Hin|apply A; exact Hv]. }
+      simpl in Hle. rewrite !map_length in Hle. exact Hle.
+    Qed.
+
+    Lemma progress_loop : forall fuel st rs calls,
+      inv st rs -> (length Univ < fuel + length st)%nat ->
+      no_partialX (snd (fst (loopX l fuel st rs calls))) = true.
+    Proof.
+      induction fuel as [|f IH]; intros st rs calls I Hlt.
+      - exfalso. destruct I as [N [S _]]. pose proof (NoDup_incl_length N S) as Hle.
+        rewrite map_length in Hle. simpl in Hlt. lia.
+      - simpl. set (st' := add_allX st (l (to_loadX st rs))).
+        fold (mapf (reinterp st') rs).
+        destruct (no_partialX (mapf (reinterp st') rs)) eqn:Hn; [simpl; exact Hn|].
+        apply IH; [apply step_inv; exact I|].
+        pose proof (step_grows st rs I Hn) as G. fold st' in G. lia.
+    Qed.
+
+    Theorem progress : forall n, (length Univ < n)%nat -> exists d, batchedX l n = BOk d.
+    Proof.
+      intros n Hn. unfold batched, batched_full.
+      assert (I : inv [] initX).
+      { split; [constructor|]. split; [intros u []|]. split; [exact good_nil|].
+        exists rs0. split; [reflexivity|exact rs0_in_universe]. }
+      pose proof (progress_loop n [] initX [] I ltac:(simpl; lia)) as P.
+      destruct (loopX l n [] initX []) as [[st1 rs1] c1]. simpl in P. simpl.
+      destruct (decide_no_partial rs1 P) as [d Hd]. rewrite Hd. eauto.
+    Qed.
+  End Progress.
+
+  (* the loader hypotheses hold of TestEntityLoader / loader_of *)
+  Lemma loader_of_fst : forall es ids, map fst (loader_of U U_eqb D es ids) = ids.
+  Proof. intros. unfold loader_of. rewrite map_map. simpl. apply map_id. Qed.
+
+  Lemma loader_of_answers : forall es ids u, In u ids -> In u (map fst (loader_of U U_eqb D es ids)).
+  Proof. intros. rewrite loader_of_fst. assumption. Qed.
+
+  Lemma loader_of_in_universe : forall (Univ : list U) es ids u,
+    In u (map fst (loader_of U U_eqb D es ids)) -> In u ids \/ In u Univ.
+  Proof. intros. rewrite loader_of_fst in H. left. assumption. Qed.
+
+  (* ... and of loader_all when the store's uids are in the universe *)
+  Lemma loader_all_answers : forall es ids u, In u ids -> In u (map fst (loader_all U U_eqb D es ids)).
+  Proof. intros. unfold loader_all. rewrite map_app, loader_of_fst. apply in_or_app. left. assumption. Qed.
+
+  Lemma loader_all_in_universe : forall (Univ : list U) es, incl (map fst es) Univ ->
+    forall ids u, In u (map fst (loader_all U U_eqb D es ids)) -> In u ids \/ In u Univ.
+  Proof.
+    intros Univ es Hs ids u H. unfold loader_all in H. rewrite map_app, loader_of_fst in H.
+    apply in_app_or in H. destruct H as [H|H]; [left; exact H|right]. apply Hs. rewrite map_map in H. simpl in H. exact H.
+  Qed.
 
   (* ---------------------------------------------------------------- agreement with the concrete decision *)
   Section Agree.
@@ -199,7 +370,7 @@ Section BatchedProofs.
     Variable conc : residual -> rclass.          (* concrete outcome of the residual over the full store *)
     Variable good : pstore U D -> Prop.          (* "the partial store is what the loader gives for the full store" *)
     Hypothesis good_nil : good [].
-    Hypothesis good_add : forall st ids st', good st -> add_all U U_eqb D empty_entity st (l ids) = Some st' -> good st'.
+    Hypothesis good_add : forall st ids, good st -> good (add_allX st (l ids)).
     (* residual soundness (C14): a decided residual is the concrete outcome; re-interpretation on a
        good partial store preserves the concrete meaning *)
     Hypothesis sound_class : forall r, classify r <> RPartial -> conc r = classify r.
@@ -256,14 +427,14 @@ Section BatchedProofs.
     Qed.
 
     Lemma loop_keeps : forall n st rs calls st1 rs1 c1,
-      good st -> loopX l n st rs calls = Some (st1, rs1, c1) -> exists g, keeps g /\ rs1 = mapf g rs.
+      good st -> loopX l n st rs calls = (st1, rs1, c1) -> exists g, keeps g /\ rs1 = mapf g rs.
     Proof.
       induction n as [|n IH]; intros st rs calls st1 rs1 c1 G H; simpl in H.
       - inversion H; subst. exists (fun r => r). split; [intro r; reflexivity|]. symmetry; apply mapf_id.
-      - destruct (add_all U U_eqb D empty_entity st (l (to_load U U_eqb D residual lits st rs))) as [st'|] eqn:Ha; [|discriminate].
-        assert (G' : good st') by (eapply good_add; eauto).
+      - set (st' := add_allX st (l (to_loadX st rs))) in *.
+        assert (G' : good st') by (apply good_add; exact G).
         fold (mapf (reinterp st') rs) in H.
-        destruct (no_partial residual classify (mapf (reinterp st') rs)) eqn:Hn.
+        destruct (no_partialX (mapf (reinterp st') rs)) eqn:Hn.
         + inversion H; subst. eexists. split; [|reflexivity]. intro r; apply sound_reinterp; assumption.
         + apply (IH _ _ _ _ _ _ G') in H. destruct H as [g [Hg E]]. exists (fun r => g (reinterp st' r)). split.
           * intro r. rewrite Hg. apply sound_reinterp. exact G'.
@@ -273,7 +444,7 @@ Section BatchedProofs.
     Theorem agree : forall n d, batchedX l n = BOk d -> d = cdecide rs0.
     Proof.
       intros n d. unfold batched, batched_full.
-      destruct (loopX l n [] initX []) as [[[st1 rs1] c1]|] eqn:E; simpl; [|discriminate].
+      destruct (loopX l n [] initX []) as [[st1 rs1] c1] eqn:E; simpl.
       destruct (decideX rs1) as [d1|] eqn:Ed; simpl; [|discriminate]. intro H. inversion H; subst.
       destruct (loop_keeps _ _ _ _ _ _ _ good_nil E) as [g [Hg Eg]].
       rewrite (decide_sound _ _ Ed). subst rs1. rewrite (cdecide_mapf g _ Hg).
@@ -281,3 +452,99 @@ Section BatchedProofs.
     Qed.
   End Agree.
 End BatchedProofs.
+
+(* ------------------------------------------------------------------ the pointer-chain instance
+   satisfies every interp hypothesis: the Sections above are not vacuous *)
+Section ChainInstance.
+  Variable es : list (Z * cdata).
+  Variable Univ : list Z.
+  Hypothesis es_next_in_universe : forall u fl v, lookup Z Z.eqb cdata es u = Some (fl, Some v) -> In v Univ.
+
+  Definition c_good (st : list (Z * cdata)) : Prop :=
+    forall u fl v, lookup Z Z.eqb cdata st u = Some (fl, Some v) -> In v Univ.
+
+  Lemma c_stable : forall st, stable cres c_classify (c_reinterp st).
+  Proof. intros st r H. destruct r; simpl in *; [reflexivity|congruence]. Qed.
+
+  Lemma lookup_none_loaded : forall (st : list (Z * cdata)) u,
+    lookup Z Z.eqb cdata st u = None -> loaded Z Z.eqb cdata st u = false.
+  Proof.
+    induction st as [|[v d] tl IH]; intros u H; simpl in *; [reflexivity|].
+    unfold loaded, mem in *. simpl. destruct (Z.eqb u v); [discriminate|]. simpl. apply IH. exact H.
+  Qed.
+
+  Lemma c_follow_partial : forall k st u,
+    c_classify (c_follow st u k) = RPartial ->
+    exists v, In v (c_lits (c_follow st u k)) /\ loaded Z Z.eqb cdata st v = false.
+  Proof.
+    induction k as [|k IH]; intros st u; simpl; destruct (lookup Z Z.eqb cdata st u) as [[fl nx]|] eqn:L.
+    - destruct fl as [[|]|]; simpl; discriminate.
+    - intros _. exists u. split; [left; reflexivity|apply lookup_none_loaded; exact L].
+    - destruct nx as [v|]; [apply IH|simpl; discriminate].
+    - intros _. exists u. split; [left; reflexivity|apply lookup_none_loaded; exact L].
+  Qed.
+
+  Lemma c_partial_needs_unloaded : forall st r,
+    c_classify (c_reinterp st r) = RPartial ->
+    exists u, In u (c_lits (c_reinterp st r)) /\ loaded Z Z.eqb cdata st u = false.
+  Proof. intros st [c|u k]; simpl; [destruct c; discriminate|apply c_follow_partial]. Qed.
+
+  Lemma c_follow_lits : forall k st u, c_good st -> In u Univ -> incl (c_lits (c_follow st u k)) Univ.
+  Proof.
+    induction k as [|k IH]; intros st u G Hu; simpl; destruct (lookup Z Z.eqb cdata st u) as [[fl nx]|] eqn:L.
+    - destruct fl as [[|]|]; simpl; intros x [].
+    - intros x [E|[]]. subst. exact Hu.
+    - destruct nx as [v|]; [apply IH; [exact G|exact (G u fl v L)]|simpl; intros x []].
+    - intros x [E|[]]. subst. exact Hu.
+  Qed.
+
+  Lemma c_lits_in_universe : forall st r, c_good st -> incl (c_lits r) Univ -> incl (c_lits (c_reinterp st r)) Univ.
+  Proof.
+    intros st [c|u k] G H; simpl; [intros x []|]. apply c_follow_lits; [exact G|]. apply H. left. reflexivity.
+  Qed.
+
+  Lemma c_good_nil : c_good [].
+  Proof. intros u fl v H. discriminate. Qed.
+
+  Lemma add_all_lookup : forall ans (st : list (Z * cdata)) u d,
+    lookup Z Z.eqb cdata (add_all Z Z.eqb cdata c_empty st ans) u = Some d ->
+    lookup Z Z.eqb cdata st u = Some d \/
+    exists e, In (u, e) ans /\ d = match e with Some x => x | None => c_empty u end.
+  Proof.
+    induction ans as [|[w e] tl IH]; intros st u d H; simpl in H; [left; exact H|].
+    destruct (loaded Z Z.eqb cdata st w).
+    - destruct (IH _ _ _ H) as [A|[e' [A B]]]; [left; exact A|right; exists e'; split; [right; exact A|exact B]].
+    - destruct (IH _ _ _ H) as [A|[e' [A B]]].
+      + simpl in A. destruct (Z.eqb u w) eqn:Q; [|left; exact A].
+        apply Z.eqb_eq in Q. subst w. inversion A; subst. right. exists e. split; [left; reflexivity|reflexivity].
+      + right. exists e'. split; [right; exact A|exact B].
+  Qed.
+
+  Lemma c_good_add_of : forall st ids, c_good st -> c_good (add_all Z Z.eqb cdata c_empty st (loader_of Z Z.eqb cdata es ids)).
+  Proof.
+    intros st ids G u fl v H. destruct (add_all_lookup _ _ _ _ H) as [A|[e [A B]]]; [exact (G u fl v A)|].
+    unfold loader_of in A. apply in_map_iff in A. destruct A as [x [E _]]. inversion E; subst.
+    destruct (lookup Z Z.eqb cdata es u) as [x|] eqn:L; [|discriminate]. subst x. exact (es_next_in_universe u fl v L).
+  Qed.
+
+  (* c15_progress instantiated: chains over a store whose references stay in the universe *)
+  Theorem chain_progress : forall rs0,
+    (forall er, In er rs0 -> incl (c_lits (snd er)) Univ) ->
+    forall n, (length Univ < n)%nat -> exists d, c_batched rs0 es n = BOk d.
+  Proof.
+    intros rs0 H0 n Hn. unfold c_batched, c_batched_full.
+    change (fst (batched_full Z Z.eqb cdata c_empty cres c_classify c_lits c_reinterp rs0 (loader_of Z Z.eqb cdata es) n))
+      with (batched Z Z.eqb cdata c_empty cres c_classify c_lits c_reinterp rs0 (loader_of Z Z.eqb cdata es) n).
+    eapply (progress Z Z.eqb cdata c_empty cres c_classify c_lits c_reinterp rs0 (loader_of Z Z.eqb cdata es) Univ c_good).
+    - intros a b. apply Z.eqb_eq.
+    - apply c_stable.
+    - apply c_good_nil.
+    - apply c_good_add_of.
+    - apply c_partial_needs_unloaded.
+    - apply c_lits_in_universe.
+    - exact H0.
+    - apply loader_of_answers.
+    - apply loader_of_in_universe.
+    - exact Hn.
+  Qed.
+End ChainInstance.
